@@ -115,13 +115,13 @@ Lemma constants_nl :
 Proof. repeat split; repeat constructor. Qed.
 
 (* the token-level statement for the concrete stack: what remains to be assumed is about the lexer
-   stack only (chunking of the reference tokenizer, faithful echo of the lexer model) *)
+   stack only (chunking of the reference tokenizer, token-faithful echo of the lexer model) *)
 Lemma build_code_tokens_now (T : Type) (sigt : bytes -> option (list T)) :
   (forall a b ta tb, ends_with_nl a = true -> sigt a = Some ta -> sigt b = Some tb ->
                      sigt (a ++ b) = Some (ta ++ tb)) ->
   (forall a ta, sigt a = Some ta -> sigt (a ++ [10]) = Some ta) ->
   sigt [] = Some [] ->
-  (forall ls q, from_lines ls = Ok q -> concat (echo_lines q) = concat ls) ->
+  (forall ls q t, from_lines ls = Ok q -> sigt (concat ls) = Some t -> sigt (concat (echo_lines q)) = Some t) ->
   forall cwd fs lua_path fuel main_path main_content out,
   build_code_now cwd fs lua_path fuel main_path main_content = Ok out ->
   exists r pk, build_lua_now cwd fs lua_path fuel main_path main_content = Ok (r, pk) /\
@@ -144,4 +144,72 @@ Proof.
            (find_in cwd fs lua_path) require_lua_preamble_package require_lua_preamble_require
            header_line_now end_line_now nl_line_now T sigt H1 H2 H3 H4 file_lines_concat Hnl
            header_line_now_nl Hend Hpp Hpr).
+Qed.
+
+(* ---- taking the game loop functions out only removes tokens: the significant tokens that remain
+   are a subsequence of the file's ---- *)
+Inductive subseq {A} : list A -> list A -> Prop :=
+| sub_nil : subseq [] []
+| sub_skip x l m : subseq l m -> subseq l (x :: m)
+| sub_keep x l m : subseq l m -> subseq (x :: l) (x :: m).
+
+Lemma subseq_refl {A} (l : list A) : subseq l l.
+Proof. induction l; constructor; assumption. Qed.
+
+Lemma subseq_nil_l {A} (l : list A) : subseq [] l.
+Proof. induction l; constructor; assumption. Qed.
+
+Lemma subseq_trans {A} (a b c : list A) : subseq a b -> subseq b c -> subseq a c.
+Proof.
+  intros Hab Hbc. revert a Hab. induction Hbc as [|x l m _ IH|x l m _ IH]; intros a Hab.
+  - exact Hab.
+  - constructor. apply IH, Hab.
+  - inversion Hab; subst; [constructor; apply IH; assumption | constructor; apply IH; assumption].
+Qed.
+
+Lemma subseq_app {A} (a a' b b' : list A) : subseq a a' -> subseq b b' -> subseq (a ++ b) (a' ++ b').
+Proof. intros Ha Hb. induction Ha; cbn; [exact Hb | constructor; assumption | constructor; assumption]. Qed.
+
+Lemma subseq_skipn {A} n (l : list A) : subseq (skipn n l) l.
+Proof.
+  revert l. induction n as [|n IH]; intros l; [apply subseq_refl|].
+  destruct l as [|x l]; [constructor|]. cbn [skipn]. constructor. apply IH.
+Qed.
+
+Lemma subseq_filter {A} (f : A -> bool) (a b : list A) : subseq a b -> subseq (filter f a) (filter f b).
+Proof.
+  intros H. induction H as [|x l m _ IH|x l m _ IH]; cbn [filter].
+  - constructor.
+  - destruct (f x); [constructor|]; exact IH.
+  - destruct (f x); [constructor|]; exact IH.
+Qed.
+
+Lemma skipn_plus {A} a : forall k (l : list A), skipn (a + k) l = skipn k (skipn a l).
+Proof.
+  induction a as [|a IH]; intros k l; [reflexivity|].
+  destruct l as [|x l]; [cbn; destruct k; reflexivity|]. cbn [Nat.add skipn]. apply IH.
+Qed.
+
+Definition sig_toks_of (ts : list tok) : list tok := filter (fun t => negb (is_trivia_tok t)) ts.
+
+Lemma splice_removes ts a b : subseq (sig_toks_of (splice ts a b)) (sig_toks_of ts).
+Proof.
+  unfold splice, sig_toks_of. rewrite filter_app. cbn [filter].
+  change (negb (is_trivia_tok space_tok)) with false. cbv iota.
+  rewrite <- filter_app. apply subseq_filter.
+  rewrite <- (firstn_skipn (Z.to_nat a) ts) at 3.
+  apply subseq_app; [apply subseq_refl|].
+  replace (Z.to_nat (Z.max a b)) with (Z.to_nat a + (Z.to_nat (Z.max a b) - Z.to_nat a))%nat by lia.
+  rewrite skipn_plus. apply subseq_skipn.
+Qed.
+
+Lemma strip_stats_removes stats : forall ts ts',
+  strip_stats stats ts = Ok ts' -> subseq (sig_toks_of ts') (sig_toks_of ts).
+Proof.
+  induction stats as [|s r IH]; intros ts ts' H.
+  - cbn in H. injection H as <-. apply subseq_refl.
+  - cbn [strip_stats] in H. destruct (is_game_loop_stat s); [|apply IH, H].
+    destruct (start_of s) as [a|]; [|discriminate]. destruct (end_of s) as [b|]; [|discriminate].
+    destruct (skip_trivia (skipn (Z.to_nat a) ts) a) as [a'|e]; [|discriminate]. cbn [bind] in H.
+    eapply subseq_trans; [apply IH, H | apply splice_removes].
 Qed.
